@@ -115,6 +115,20 @@ CLAIMED = {
     technique="contract-based deductive verification: generator verified as a procedure against an assumed unit contract, "
               "z3 QF_BV",
     note=TB + "; the unit contract contracts/units/gear209.py is assumed (written from the standard), not verified"),
+ "C08": dict(
+    category="proof",
+    text="The real QueryDeviceTypes, QueryGroups and SetGroups generators are executed symbolically against an assumed "
+         "IEC 62386-102 unit contract: device-type lists of every length 0..8 with symbolic ascending values are returned "
+         "exactly; all 2^16 group masks are reported exactly; for all 2^16 x 2^16 (current, requested) pairs SetGroups leaves "
+         "membership equal to the request, and for short/int destinations ADD/REMOVE is yielded for a group exactly when "
+         "needed (conditional yields merged by if-conversion, so no enumeration); one silence or framing error at any step, "
+         "and every adversarial answer stream of length 1..5, ends in DALISequenceError or in data that is strictly ascending "
+         "and built from clean answers only, within a bounded number of commands.",
+    design_ref="DESIGN.md 6 (C08), 3.7",
+    technique="contract-based deductive verification: generators verified as procedures against an assumed unit contract, "
+              "z3 QF_BV",
+    note=TB + "; unit contract contracts/units/gear102.py assumed; device-type list length bounded by 8, adversarial "
+         "prefixes by 5 (termination for unbounded adversarial streams undecided)"),
 }
 
 NA_REASON = "check under construction in this round (no obligations built yet); see DESIGN.md section 6"
